@@ -26,9 +26,15 @@ def make_record(c, rtype=0x17, min_len=0):
 
 def aead_world(c, names):
     made, plain = [], c.bytes("aead_plaintext", max_len=17000)
+    fails = c.bool("authentication_fails")
+
+    def open_(m, args, k):
+        if c.truth_fork(fails):
+            c.raise_in_code("InvalidTag")
+        return plain
     for n in names:
         def ctor(key, *a, _n=n):
-            r = c.recorder("aead:" + _n, handler=lambda m, args, k: plain, key=key, ctor_args=a)
+            r = c.recorder("aead:" + _n, handler=open_, key=key, ctor_args=a)
             made.append((_n, key, a, r))
             return r
         c.lib_model(AEADM + n, ctor)
@@ -58,8 +64,10 @@ def h_tls13(c, aead, isserver):
               bulk_alg=c.external(AEADM + aead), tag_length=tag)
     meth = "decrypt_tls13_stream_cipher" if aead == "ChaCha20Poly1305" else "decrypt_tls13_aead"
     out = c.method(d, meth, rec, isserver)
-    c.ensure("no_raise", out.exc is None, kind="raises")
     if out.exc is not None:
+        # a record that does not authenticate leaves the cipher state as it was (no sequence number is consumed)
+        c.ensure("failure.only_authentication", out.exc == "InvalidTag", kind="raises")
+        c.ensure("failure.state_unchanged", band(c.get(d, "server_seq") == sseq, c.get(d, "client_seq") == cseq))
         return
     key, iv, seq = (sk, siv, sseq) if isserver else (ck, civ, cseq)
     c.ensure("one_aead_object_of_the_suite", len(made) == 1 and made[0][0] == aead and made[0][1] is key)
@@ -101,8 +109,9 @@ def h_tls12_aead(c, aead, isserver):
     d = c.obj(DEC, server_key=sk, client_key=ck, server_iv=siv, client_iv=civ, server_seq=sseq, client_seq=cseq,
               bulk_alg=c.external(AEADM + aead), tag_length=tag, compression_method=0)
     out = c.method(d, "decrypt_tls12_chacha20" if chacha else "decrypt_tls12_aead", rec, isserver)
-    c.ensure("no_raise", out.exc is None, kind="raises")
     if out.exc is not None:
+        c.ensure("failure.only_authentication", out.exc == "InvalidTag", kind="raises")
+        c.ensure("failure.state_unchanged", band(c.get(d, "server_seq") == sseq, c.get(d, "client_seq") == cseq))
         return
     key, iv, seq = (sk, siv, sseq) if isserver else (ck, civ, cseq)
     c.ensure("one_aead_object_of_the_suite", len(made) == 1 and made[0][0] == aead and made[0][1] is key)
@@ -293,3 +302,100 @@ def h_inner(c, ctype):
         c.ensure("handshake_bytes_forwarded", len(hs) == 1 and eq(hs[0][0], content) and c.same_object(hs[0][1], isserver))
     else:
         c.ensure("alert_not_exported", len(tr) == 0 and len(hs) == 0)
+
+
+# ---- hellos and the handshake state machine -------------------------------------------------------------------
+
+def hello_body(c, msg_type, n_ext, with_ext_block=True):
+    ver = c.bytes("hello_version", length=2)
+    rnd = c.bytes("random", length=32)
+    sid = c.bytes("session_id", max_len=32)
+    suite, comp = c.bytes("cipher_suite", length=2), c.int("compression", 0, 255)
+    exts, ext_bytes = [], const(b"")
+    for i in range(n_ext):
+        t = c.bytes("ext%d_type" % i, length=2)
+        d = c.bytes("ext%d_data" % i, max_len=300)
+        exts.append((t, d))
+        ext_bytes = cat(ext_bytes, t, c.encode_be("ext%d_len" % i, len_(d), 2), d)
+    body = cat(ver, rnd, c.bytes_of([len_(sid)]), sid, suite, c.bytes_of([comp]))
+    if with_ext_block:
+        body = cat(body, c.encode_be("exts_len", len_(ext_bytes), 2), ext_bytes)
+    msg = cat(c.bytes_of([msg_type]), c.encode_be("hs_len", len_(body), 3), body)
+    return msg, dict(version=ver, random=rnd, suite=suite, compression=comp, extensions=exts)
+
+
+@harness("C01", "hello.server_hello", functions=[SE + ".handle_tls_server_hello"], cases=[(n, rv) for n in (0, 1, 2) for rv in ("0300", "0301", "0302", "0303")])
+def h_server_hello(c, n_ext, record_version):
+    """BOUNDED (<= 2 extensions): for a ServerHello laid out as in RFC 5246 7.4.1.3 / RFC 8446 4.1.3 (session id of any
+    length 0..32, extensions of any type and length INCLUDING zero-length ones in last position) the parsed server
+    random, cipher suite, compression method and extension map are the encoded ones; the version follows the record /
+    hello versions and supported_versions = 0x0304; keys are generated from exactly these values"""
+    if c.native:
+        return
+    msg, f = hello_body(c, 2, n_ext)
+    rec = c.obj("tlexport.tlsrecord.TlsRecord", binary=msg, record_type=0x16, record_version=const(bytes.fromhex(record_version)),
+                record_length=const(b"\x00\x00"), raw=cat(const(b"\x16"), const(bytes.fromhex(record_version)), const(b"\x00\x00"), msg), metadata=[], isserver=True)
+    gen = []
+    c.summary_override(SE + ".generate_keys", lambda ctx, slf, *a: gen.append(a))
+    cr = c.bytes("client_random", length=32)
+    s = c.obj(SE, client_hello_seen=True, can_decrypt=False, client_random=cr, tls_version=None)
+    out = c.method(s, "handle_tls_server_hello", rec)
+    c.ensure("no_raise", out.exc is None, kind="raises")
+    if out.exc is not None:
+        return
+    g = lambda n: c.get(s, n)
+    c.ensure("server_random", eq(g("server_random"), f["random"]))
+    c.ensure("cipher_suite", eq(g("ciphersuite"), f["suite"]))
+    c.ensure("compression", g("compression_method") == f["compression"])
+    em = g("extensions")
+    # the encoded map: a later extension of the same type overrides an earlier one
+    want = []
+    for i, (t, d) in enumerate(f["extensions"]):
+        if not any(c.truth_fork(eq(t, t2)) for (t2, _) in f["extensions"][i + 1:]):
+            want.append((t, d))
+    c.ensure("extensions.count", len(em) == len(want))
+    for t, d in want:
+        got = c.dict_get(em, t)
+        c.ensure("extensions.entry", got is not None and c.prove(eq(got, d)))
+    is13 = any(c.truth_fork(band(eq(t, const(b"\x00\x2b")), eq(d, const(b"\x03\x04")))) for t, d in want)
+    TVq = "tlexport.tlsversion.TlsVersion"
+    if record_version == "0300":
+        wantv = "SSL30"
+    elif record_version == "0302":
+        wantv = "TLS11"
+    else:
+        hv = f["version"]
+        wantv = "TLS10" if c.truth_fork(eq(hv, const(b"\x03\x01"))) else (("TLS13" if is13 else "TLS12") if c.truth_fork(eq(hv, const(b"\x03\x03"))) else None)
+    if wantv is None:
+        c.ensure("unknown_version.no_keys", len(gen) == 0 and g("can_decrypt") is False)
+        return
+    c.ensure("version", g("tls_version") is c.enum(TVq, wantv))
+    c.ensure("keys_generated_from_the_parsed_values", len(gen) == 1 and gen[0][0] is g("tls_version") and gen[0][1] is g("ciphersuite")
+             and gen[0][2] is cr and gen[0][3] is g("server_random"))
+    c.cover("reached")
+
+
+h_server_hello.must_cover = ["reached"]
+
+
+@harness("C01", "state.finished", functions=[SE + ".handle_handshake_finished"], cases=[(m,) for m in (False, True)])
+def h_finished(c, meta):
+    """an encrypted handshake record advances a cipher state only if ITS sender has sent ChangeCipherSpec (and the
+    connection can be decrypted): exactly one decrypt call for that direction then, none otherwise - the other
+    direction's ChangeCipherSpec is irrelevant"""
+    if c.native:
+        return
+    dec = c.recorder("decryptor", handler=lambda m, a, k: c.bytes_fresh("pt", 0, 100))
+    scc, ccc, can, isserver = c.bool("server_ccs"), c.bool("client_ccs"), c.bool("can_decrypt"), c.bool("isserver")
+    s = c.obj(SE, decryptor=dec, server_cipher_change=scc, client_cipher_change=ccc, can_decrypt=can, exp_meta=meta, application_traffic=[])
+    rec = c.opaque("record")
+    out = c.method(s, "handle_handshake_finished", rec, isserver)
+    calls = [x for x in c.calls(dec) if x[0] == "decrypt"]
+    want = bor(band(scc, isserver, can), band(ccc, bnot(isserver), can))
+    if c.truth_fork(want):
+        c.ensure("decrypted_once_for_the_sender", len(calls) == 1 and calls[0][1][0] is rec and c.same_object(calls[0][1][1], isserver))
+    else:
+        c.ensure("cipher_state_untouched", len(calls) == 0)
+    if not meta:
+        c.ensure("no_raise_without_-a", out.exc is None, kind="raises")
+        c.ensure("nothing_exported_without_-a", len(c.get(s, "application_traffic")) == 0)
